@@ -155,4 +155,197 @@ theorem keys_schulzeScores (v : Pairwise) :
       rw [keys_incr_of_mem (by rw [hd]; exact hk.1), hd]
     rw [keys_incr_of_mem (by rw [h1]; exact hk.2), h1]
 
+/-! ### Condorcet winner -/
+
+theorem mem_pairwiseWins_of_nodup {p : Pairwise} (hk : (pkeys p).Nodup) {a b : Cand} :
+    (a, b) ∈ pairwiseWins p false ↔ (a, b) ∈ pkeys p ∧ pget p (b, a) < pget p (a, b) := by
+  simp only [pairwiseWins, Bool.false_and, Bool.or_false, List.mem_map, List.mem_filter, decide_eq_true_eq]
+  constructor
+  · rintro ⟨e, ⟨he, hlt⟩, hp⟩
+    obtain ⟨q, c⟩ := e
+    simp only at hp
+    subst hp
+    have := pget_of_mem hk he
+    rw [this]
+    exact ⟨List.mem_map.2 ⟨_, he, rfl⟩, hlt⟩
+  · rintro ⟨hkey, hlt⟩
+    obtain ⟨e, he, hq⟩ := List.mem_map.1 hkey
+    obtain ⟨q, c⟩ := e
+    simp only at hq
+    subst hq
+    have := pget_of_mem hk he
+    rw [this] at hlt
+    exact ⟨((a, b), c), ⟨he, hlt⟩, rfl⟩
+
+theorem nodup_pairwiseWins_of_nodup {p : Pairwise} (hk : (pkeys p).Nodup) (t : Bool) : (pairwiseWins p t).Nodup := by
+  unfold pairwiseWins
+  exact hk.sublist (List.Sublist.map _ List.filter_sublist)
+
+/-- invariants of the path dictionary when `w` is the Condorcet winner: no path into `w` has positive
+    strength, every direct win of `w` keeps a positive strength -/
+theorem widestPaths_cw_inv {v : Pairwise} (hwf : WF v) {w : Cand} (hw : IsCW v w) :
+    (pkeys (widestPaths v)).Nodup ∧ (∀ x, pget (widestPaths v) (x, w) ≤ 0) ∧
+      (∀ x ∈ candidates v, x ≠ w → 0 < pget (widestPaths v) (w, x)) := by
+  apply widestPaths_preserves v (fun p => (pkeys p).Nodup ∧ (∀ x, pget p (x, w) ≤ 0) ∧
+      (∀ x ∈ candidates v, x ≠ w → 0 < pget p (w, x)))
+  · have hnd : (pkeys (v.filter (fun e => decide (pget v (e.1.2, e.1.1) < e.2)))).Nodup :=
+      hwf.1.sublist (List.Sublist.map _ List.filter_sublist)
+    refine ⟨hnd, ?_, ?_⟩
+    · intro x
+      rcases pget_mem_or_zero (v.filter (fun e => decide (pget v (e.1.2, e.1.1) < e.2))) (x, w) with h | ⟨_, h⟩
+      · exfalso
+        obtain ⟨hv, hlt⟩ := List.mem_filter.1 h
+        simp only [decide_eq_true_eq] at hlt
+        have hx : x ∈ candidates v := fst_mem_candidates hv
+        have hne : x ≠ w := hwf.2.1 _ hv
+        have hb := hw.2 x hx hne
+        have hval := pget_of_mem hwf.1 hv
+        rw [← hval] at hlt
+        exact lt_asymm hb hlt
+      · rw [h]
+    · intro x hx hne
+      have hb := hw.2 x hx hne
+      have hpos : 0 < pget v (w, x) := lt_of_le_of_lt (pget_nonneg hwf _) hb
+      have hmem : ((w, x), pget v (w, x)) ∈ v.filter (fun e => decide (pget v (e.1.2, e.1.1) < e.2)) :=
+        List.mem_filter.2 ⟨pget_pos_mem hpos, by simpa [Beats] using hb⟩
+      rw [pget_of_mem hnd hmem]
+      exact hpos
+  · rintro p c1 c2 ca _ _ _ _ _ ⟨hnd, hin, hout⟩
+    refine ⟨nodup_pkeys_pset hnd _ _, ?_, ?_⟩
+    · intro x
+      rw [pget_pset]
+      split
+      · rename_i heq
+        simp only [Prod.mk.injEq] at heq
+        obtain ⟨rfl, rfl⟩ := heq
+        exact rmax_le (hin _) (le_trans (rmin_le_right _ _) (hin _))
+      · exact hin x
+    · intro x hx hne
+      rw [pget_pset]
+      split
+      · rename_i heq
+        simp only [Prod.mk.injEq] at heq
+        obtain ⟨rfl, rfl⟩ := heq
+        exact lt_of_lt_of_le (hout _ hx hne) (rmax_ge_left _ _)
+      · exact hout x hx hne
+
+theorem getD_schulzeFold (wins : List Pair) (d : Votes) (c : Cand) :
+    getD (wins.foldl (fun d w => incr (incr d w.1 1) w.2 0) d) c 0 = getD d c 0 + (winsBy wins c : Rat) := by
+  induction wins generalizing d with
+  | nil => simp [winsBy]
+  | cons w ws ih =>
+    rw [List.foldl_cons, ih, getD_incr, getD_incr, winsBy_cons]
+    have e1 : (c = w.1) ↔ (w.1 = c) := eq_comm
+    by_cases h1 : w.1 = c <;> simp [h1, e1] <;> ring
+
+theorem getD_zeroDict (cands : List Cand) (c : Cand) : getD (cands.map (fun c => (c, (0 : Rat)))) c 0 = 0 := by
+  unfold getD lookup
+  cases hf : (cands.map (fun c => (c, (0 : Rat)))).find? (fun p => p.1 = c) with
+  | none => rfl
+  | some e =>
+    have := List.mem_of_find?_eq_some hf
+    obtain ⟨x, _, rfl⟩ := List.mem_map.1 this
+    rfl
+
+theorem mem_getD_of_key {d : Votes} (hk : (keys d).Nodup) {p : Cand × Rat} (hp : p ∈ d) : p.2 = getD d p.1 0 := by
+  have := (mem_iff_lookup hk (c := p.1) (x := p.2)).1 hp
+  simp [getD, this]
+
+/-- the number of wins of `c` in a duplicate-free list of wins whose losers all satisfy `Q` among the
+    candidates is at most the number of candidates satisfying `Q` -/
+theorem winsBy_le_filter {wins : List Pair} (hnd : wins.Nodup) {cands : List Cand} (c : Cand) (Q : Cand → Bool)
+    (h : ∀ x, (c, x) ∈ wins → x ∈ cands ∧ Q x = true) : winsBy wins c ≤ (cands.filter Q).length := by
+  have h1 : winsBy wins c = ((wins.filter (fun w => w.1 = c)).map (·.2)).length := by simp [winsBy]
+  rw [h1]
+  apply List.Subperm.length_le
+  apply List.subperm_of_subset
+  · apply List.Nodup.map_on
+    · rintro ⟨a, b⟩ ha ⟨a', b'⟩ ha' hbb
+      simp only [List.mem_filter, decide_eq_true_eq] at ha ha'
+      simp only at hbb
+      rw [Prod.mk.injEq]
+      exact ⟨ha.2.trans ha'.2.symm, hbb⟩
+    · exact hnd.filter _
+  · intro x hx
+    obtain ⟨⟨a, b⟩, hab, rfl⟩ := List.mem_map.1 hx
+    simp only [List.mem_filter, decide_eq_true_eq] at hab
+    obtain ⟨hw, rfl⟩ := hab
+    exact List.mem_filter.2 (h b hw)
+
+theorem winsBy_ge_filter {wins : List Pair} {cands : List Cand} (hc : cands.Nodup) (c : Cand) (Q : Cand → Bool)
+    (h : ∀ x ∈ cands, Q x = true → (c, x) ∈ wins) : (cands.filter Q).length ≤ winsBy wins c := by
+  have h1 : winsBy wins c = ((wins.filter (fun w => w.1 = c)).map (·.2)).length := by simp [winsBy]
+  rw [h1]
+  apply List.Subperm.length_le
+  apply List.subperm_of_subset (hc.filter _)
+  intro x hx
+  obtain ⟨hx1, hx2⟩ := List.mem_filter.1 hx
+  exact List.mem_map.2 ⟨(c, x), List.mem_filter.2 ⟨h x hx1 hx2, by simp⟩, rfl⟩
+
+theorem schulze_cw {v : Pairwise} (hwf : WF v) {w : Cand} (hw : IsCW v w) : schulze v 1 = [Slot.cand w] := by
+  obtain ⟨hnd, hin, hout⟩ := widestPaths_cw_inv hwf hw
+  have hkin := widestPaths_keys_in v
+  have hwnd := nodup_pairwiseWins_of_nodup hnd false
+  have hwin : ∀ x ∈ candidates v, x ≠ w → (w, x) ∈ pairwiseWins (widestPaths v) false := by
+    intro x hx hne
+    rw [mem_pairwiseWins_of_nodup hnd]
+    have hpos := hout x hx hne
+    exact ⟨List.mem_map.2 ⟨_, pget_pos_mem hpos, rfl⟩, lt_of_le_of_lt (hin x) hpos⟩
+  have hnowin : ∀ x, (x, w) ∉ pairwiseWins (widestPaths v) false := by
+    intro x hx
+    rw [mem_pairwiseWins_of_nodup hnd] at hx
+    obtain ⟨hk, hlt⟩ := hx
+    have hxc := (hkin _ hk).1
+    by_cases hxw : x = w
+    · subst hxw; exact lt_irrefl _ hlt
+    · have := hout x hxc hxw
+      have := hin x
+      linarith
+  have hself : ∀ x, (x, x) ∉ pairwiseWins (widestPaths v) false := by
+    intro x hx
+    rw [mem_pairwiseWins_of_nodup hnd] at hx
+    exact lt_irrefl _ hx.2
+  unfold schulze
+  simp only
+  set scores := (pairwiseWins (widestPaths v) false).foldl (fun d w => incr (incr d w.1 1) w.2 0)
+    ((candidates v).map (fun c => (c, (0 : Rat)))) with hscores
+  have hkeys : keys scores = candidates v := keys_schulzeScores v
+  have hknd : (keys scores).Nodup := by rw [hkeys]; exact nodup_candidates v
+  have hval : ∀ c, getD scores c 0 = (winsBy (pairwiseWins (widestPaths v) false) c : Rat) := by
+    intro c
+    rw [hscores, getD_schulzeFold, getD_zeroDict]; ring
+  have hm1 : ((candidates v).filter (fun x => decide (x ≠ w))).length + 1 = (candidates v).length :=
+    (filter_length_eq_pred (nodup_candidates v) hw.1 (fun x => decide (x ≠ w)) (by simp)).2
+      (fun o _ hne => by simpa using hne)
+  have hww : (candidates v).length ≤ winsBy (pairwiseWins (widestPaths v) false) w + 1 := by
+    have := winsBy_ge_filter (wins := pairwiseWins (widestPaths v) false) (nodup_candidates v) w
+      (fun x => decide (x ≠ w)) (fun x hx hq => hwin x hx (by simpa using hq))
+    omega
+  obtain ⟨ew, hew, hew1⟩ : ∃ e ∈ scores, e.1 = w := by
+    have : w ∈ keys scores := by rw [hkeys]; exact hw.1
+    obtain ⟨e, he, h⟩ := List.mem_map.1 this
+    exact ⟨e, he, h⟩
+  refine getNBest_one_of_unique_max (x := getD scores w 0) hknd ?_ ?_
+  · have := mem_getD_of_key hknd hew
+    rw [hew1] at this
+    rw [← this, ← hew1]
+    exact hew
+  · intro p hp hne
+    rw [mem_getD_of_key hknd hp, hval, hval]
+    have hpc : p.1 ∈ candidates v := by rw [← hkeys]; exact List.mem_map.2 ⟨p, hp, rfl⟩
+    have hle : winsBy (pairwiseWins (widestPaths v) false) p.1 ≤
+        ((candidates v).filter (fun x => decide (x ≠ p.1) && decide (x ≠ w))).length := by
+      apply winsBy_le_filter hwnd
+      intro x hx
+      refine ⟨(hkin _ (mem_pairwiseWins_key hx)).2, ?_⟩
+      simp only [Bool.and_eq_true, decide_eq_true_eq]
+      constructor
+      · rintro rfl; exact hself _ hx
+      · rintro rfl; exact hnowin _ hx
+    have h2 := filter_length_le_of_two (nodup_candidates v) hpc hw.1 hne
+      (fun x => decide (x ≠ p.1) && decide (x ≠ w)) (by simp) (by simp)
+    have : winsBy (pairwiseWins (widestPaths v) false) p.1 + 1 ≤ winsBy (pairwiseWins (widestPaths v) false) w := by
+      omega
+    exact_mod_cast Nat.lt_of_succ_le this
+
 end VL.Condorcet
